@@ -17,6 +17,8 @@ def build_obs(tier, tables):
                       params={"what": "string value: print (2 symbolic bytes) -> one <dq_str> step", "continuation_bytes": cont}))
         obs.append(Ob("rt-title-cont%d" % cont, "c05_rt.c", ["-DMODE=2", "-DCONT=%d" % cont], unwind=10, unwindset=US, checks="none", must_reach=("stepped",),
                       params={"what": "section title: print (2 symbolic bytes) -> one <dq_str> step", "continuation_bytes": cont}))
+    obs.append(Ob("rt-annotation", "c05_rt.c", ["-DMODE=4"], unwind=12, unwindset=US + ["v_fputs.0:12", "strstr.0:8", "strchr.0:8"], checks="none", must_reach=("stepped",),
+                  params={"what": "annotation of 1-3 symbolic bytes printed by the real printer is exactly one comment of the language"}))
     obs.append(Ob("rt-int-bool", "c05_rt.c", ["-DMODE=3"], unwind=12, unwindset=US, checks="none", must_reach=("stepped",),
                   params={"what": "integer in -99999..99999 and boolean: print -> cfg_setopt"}))
     # the accumulated string survives every later step and is delivered by the closing quote (incl. the
